@@ -1012,10 +1012,17 @@ class Interp:
                 return lib.call_lib(self, st, fv.name, pos, kws, node)
             if isinstance(fv, NoneV):
                 return [(st, Exc("TypeError", "'NoneType' object is not callable", self.where(node)))]
+            if isinstance(fv, AnyV) and fv.tag == "module-attribute":
+                # a loader bound in the aggregation module, reached through a symbolic name: its behaviour is decided per
+                # concrete name elsewhere (C18 enumerates all of them); here only "it was found" matters
+                return [(st, AnyV("loader-result"))]
             raise EngineError(f"call of non-callable {fv} at {self.where(node)}")
         k = fv.kind
         if opaque_kwargs and k in ("lib", "libbound", "uninterp"):
             self.assumed.add(f"A-kwargs: unknown **kwargs forwarded to {getattr(fv, 'name', '?')} are treated as absent (default behaviour of the library call)")
+        if k == "lib" and fv.name == "collections.namedtuple.__new__":
+            from .libcalls import call_namedtuple
+            return call_namedtuple(self, st, fv, pos, kws, node)
         if k == "lib":
             return lib.call_lib(self, st, fv.name, pos, kws, node)
         if k == "libbound":
